@@ -14,7 +14,7 @@ PROPS = {
                 "any tombstone subset, all sibling flag/offset combinations, any LSN/offset, optional post-split halves; internal: 0..290 cells, optional split) "
                 "plus an exhaustive sweep of all leaf shapes with <=3 cells x sizes {0,1,400} x tombstones x flags (shard 0). "
                 "A leaf read back must also behave like the page written: the same update applied to it must give the expected page, also after another write + read. An update the page refuses must leave it unchanged. Non-trivial: leaf with a tombstone and a sibling flag, or a node at (max-1..max) occupancy with a maximum-size value / internal node with >=289 cells; "
-                "distinct by canonical case JSON (FNV-64).",
+                "distinct by canonical case JSON (FNV-64). Second part (1/40 of the budget): a table driven through RelationService in phases (fill, churn, grow, shrink, purge, reload); after every operation every cached page must encode to 4096 bytes and decode to itself - the pages the insertion policy of the tree under test produces, not only the shapes of today's policy.",
         "assumptions": ["keys arrive in ascending order (the engine's shared counter), so the offset array is the identity; non-identity offset arrays are not generated"],
         "technique": "property-based testing (rapid): generated nodes, encode/decode round-trip + file-store round-trip + idempotence oracle; bounded-exhaustive small shapes",
         "level_text": "Random and bounded-exhaustive search over node shapes the engine's mutators can build, each checked against three round-trip oracles (decode(encode), cold fetch after update, byte-idempotent re-encode). It gives high confidence that no field is dropped, reordered or mis-sized for producible nodes up to maximum occupancy; it is search, not proof.",
@@ -30,7 +30,7 @@ PROPS["C01"] = {
             "UPDATE / DELETE statements over 1-12 tables, executed as SQL text through Session.ExecQuery (direct statement values through engine.Evaluate*), "
             "with generated flushes; after every k-th statement and at the end SELECT * of each table is compared as a sequence with the reference model, "
             "row ids must be stable, strictly increasing and never reused, and sys_schema / sys_pages must equal the declared schemas; the end state is compared again after a flush + reload and after USE of another database and back (close and reopen without log replay). "
-            "One CREATE TABLE in eight uses a name differing from an existing table's only in letter case; the end state is compared once more after a clean shutdown and restart. An idle database exists on either side of the one under test (also in C02-C04, C07, C08, C14, C16). One WHERE literal in twelve is of another type but prints like the column's value (= / != only; never equal). Non-trivial: an UPDATE/DELETE on a table that later goes through >=1 more leaf split, or >=2 switches between tables among the inserts, or >=7 tables (sys_pages split); distinct by case JSON.",
+            "One CREATE TABLE in eight uses a name differing from an existing table's only in letter case; the end state is compared once more after a clean shutdown and restart. An idle database exists on either side of the one under test (also in C02-C04, C07, C08, C14, C16). One WHERE literal in twelve is of another type but prints like the column's value (= / != only; never equal). Non-trivial: an UPDATE/DELETE on a table that later goes through >=1 more leaf split, or >=2 switches between tables among the inserts, or >=7 tables (sys_pages split); distinct by case JSON. Since round 11: tables of 9-129 columns (one CREATE TABLE in fourteen), a second fixed history of 1900 rows, and rows returned by a SELECT are re-checked at every later query (they must not change).",
     "technique": "stateful property-based testing (rapid) against an in-memory reference model",
     "level_text": "Model-based random search over statement histories biased to cross the structural thresholds (9-cell leaves, catalog splits, multi-level trees in the thorough tier). Finds lost/duplicated/resurrected/leaked rows and catalog drift on the explored histories; it cannot show their absence in general.",
     "level_note": "Trusted: the reference model (harness/model) and the comparison code. The flush timer is replaced by generated explicit flushes (hook VerifNoTimer); concurrency is C13's business.",
@@ -44,7 +44,7 @@ PROPS["C02"] = {
             "(never / always / random subset / only after DDL), each segment ended by process death (stores abandoned, nothing flushed) or clean shutdown; "
             "in segment 0 a crash image (copy of data file and log) is taken after EVERY statement and recovered with the real InitStorage; every image and every "
             "segment end is recovered twice and compared (value sequences, stable never-reused row ids, catalog) with the model at that statement boundary; later segments run on the recovered files. "
-            "Low-rate profile 'deep tree': a 1100-1500 row bulk load (three tree levels), then inserts/deletes/updates of the most recent rows before the crash points. One segment in four is interleaved with statements that are invalid on purpose (they must be refused and leave no trace, also in later recoveries). The refused statements also include CREATE TABLEs (existing table; a column the catalog cannot record). Non-trivial: some crash point had both flushed and log-only acknowledged changes (dirty pages present after an earlier flush) and the case contains UPDATE or DELETE; distinct by case JSON.",
+            "Low-rate profile 'deep tree': a 1100-1500 row bulk load (three tree levels), then inserts/deletes/updates of the most recent rows before the crash points. One segment in four is interleaved with statements that are invalid on purpose (they must be refused and leave no trace, also in later recoveries). The refused statements also include CREATE TABLEs (existing table; a column the catalog cannot record). Non-trivial: some crash point had both flushed and log-only acknowledged changes (dirty pages present after an earlier flush) and the case contains UPDATE or DELETE; distinct by case JSON. Since round 11 one case in three recovers every image first with a recovery-time page cache of 8-96 pages (hook VerifInitCacheSize), judged only when the replayed pages never filled that cache.",
     "technique": "fault injection by enumeration of crash points per generated history (rapid), recovery compared with a reference model",
     "level_text": "For every generated history all between-statement crash points of the first segment plus every segment end are enumerated and recovered with the real recovery code, under generated flush placements and repeated crash/recover cycles. Exhaustive per history, random over histories.",
     "level_note": "Crash = process death: every completed write is in the files (mkdb never fsyncs the data file, so this is the strongest model the code could meet). Flush timer replaced by explicit generated flushes (VerifFlush is the timer's tick). Trusted: reference model, image copy.",
@@ -137,7 +137,7 @@ PROPS["C07"] = {
             "NULLs in every grouping column including the table's first column (NULL next to the string '<nil>', strings containing commas, a second VARCHAR grouping column), AVG columns small or up to +-2^31 / +-2^40, optionally t1 for a join; 1-8 aggregate queries as SQL text: COUNT(*), COUNT(col), AVG(col) in any select-list position, 0-3 grouping columns referenced in GROUP BY (comma separated) by name, qualified name or alias, "
             "optional WHERE and JOIN. Oracle: reference grouping by value tuples, exact rational mean (either neighbour accepted at an exact half), compared as a multiset; metamorphic second run on a shadow database holding the same rows in a generated permutation. "
             "An AVG cell that deviates from the true rounded mean but equals the running mean re-rounded after every row in scan order is classified as the listed finding C07-avg-running-mean (counted, not raised). "
-            "One query in four carries LIMIT/OFFSET (the answer must be a sub-multiset of the aggregated rows of exactly the window's size); aliases may shadow another grouping column's name under fully qualified GROUP BY references (refusal as ambiguous allowed, a wrong answer not). One case in three also sends the query texts through Session.ExecQuery, alternating between two databases holding tables of the same names with different rows: the printed table must be the one evaluated in the selected database. Non-trivial: >=2 grouping columns with two groups whose concatenated printed keys coincide, or an AVG group whose running-rounded mean differs from the true rounded mean, or a grouping column that is not first in the select list; distinct by (tables, query) JSON.",
+            "One query in four carries LIMIT/OFFSET (the answer must be a sub-multiset of the aggregated rows of exactly the window's size); aliases may shadow another grouping column's name under fully qualified GROUP BY references (refusal as ambiguous allowed, a wrong answer not). One case in three also sends the query texts through Session.ExecQuery, alternating between two databases holding tables of the same names with different rows: the printed table must be the one evaluated in the selected database. Non-trivial: >=2 grouping columns with two groups whose concatenated printed keys coincide, or an AVG group whose running-rounded mean differs from the true rounded mean, or a grouping column that is not first in the select list; distinct by (tables, query) JSON. Since round 11: BOOLEAN / BIGINT (beyond 2^53) / all-NULL grouping columns, up to six grouping columns, 7-33 aggregates in one query in ten, ORDER BY over aggregated rows.",
     "technique": "property-based differential testing (rapid) against a reference aggregator + metamorphic row-order permutation",
     "level_text": "Random search over tables built to provoke key collisions and rounding differences, compared with exact arithmetic. Search, not proof.",
     "level_note": "Trusted: harness/ref. AVG only over NULL-free integer columns, grouping columns always in the select list (the property's domain). The listed AVG finding is recognised by its exact mechanism (value equals the legacy running mean), any other deviation is a violation.",
@@ -200,7 +200,7 @@ PROPS["C18"] = {
     "rule": "rapid-generated cases: a session state (database selected and populated with four tables over all four column types holding NULLs, an empty table; no USE yet; failed USE; USE of an empty database; the populated database with the REAL 100 ms flush timer running and statements held open for 130 ms at a page lookup, so that ticks fall due in the middle of statements) and 5-40 statements executed through Session.ExecQuery: "
             "4 in 5 are drawn from the full statement grammar with identifiers from the same pools the schema uses, so that they resolve tables and columns and then apply AVG/COUNT/ORDER BY/comparisons/INSERT/UPDATE values to columns of arbitrary type and to NULLs, "
             "or miss, duplicate or ambiguously name columns; 1 in 5 from a list of 70 targeted statements (aggregates over VARCHAR/BOOLEAN/NULL, ORDER BY over NULLs and ambiguous keys, mistyped comparisons, catalog tables, degenerate DDL). "
-            "Oracle: the call returns nil or an error within 20 s, never panics (recover), the worker never dies (journal), and the session still answers a SELECT afterwards. A low-rate 'bulk' state (700 rows in t2, whole-table statements, 511-1030 row INSERTs). The schema has 23-25 character column names; ~45 targeted statements just outside the grammar (avg(*), count(), aggregates in WHERE/ORDER BY/VALUES); one generated statement in five is mutated at token level. One statement in 40 carries a condition of 12-200 terms. Shard 0 runs one fixed idle session (5.6 s without a statement, real timer) followed by USE and DML. Non-trivial: the statement parses and the engine refuses it (an error path); distinct by (state, SQL text).",
+            "Oracle: the call returns nil or an error within 20 s, never panics (recover), the worker never dies (journal), and the session still answers a SELECT afterwards. A low-rate 'bulk' state (700 rows in t2, whole-table statements, 511-1030 row INSERTs). The schema has 23-25 character column names; ~45 targeted statements just outside the grammar (avg(*), count(), aggregates in WHERE/ORDER BY/VALUES); one generated statement in five is mutated at token level. One statement in 40 carries a condition of 12-200 terms. Shard 0 runs one fixed idle session (5.6 s without a statement, real timer) followed by USE and DML. Non-trivial: the statement parses and the engine refuses it (an error path); distinct by (state, SQL text). Since round 11 one statement in twelve is generated over a 24-column table with lists of 4-24 elements and join chains of 3-7 tables.",
     "technique": "grammar-based fuzzing of the executor (rapid): type- and name-confused statements against NULL-bearing tables; oracle: no panic / no hang / session survives",
     "level_text": "Random search for crashing statements. Search, not proof.",
     "level_note": "A hang is declared after 20 s for one statement. Parse-level crashes are C09's business (counted here as parse-error).",
@@ -212,7 +212,7 @@ PROPS["C15"] = {
     "rule": "operation sequences over LRUCache.set (clean or already-dirty page, same or fresh page object) / get / markDirty / markClean, run against the real cache and a list-based reference model written from the property's text; after EVERY step the boolean of set, "
             "(page identity, found) of get, resident key set, recency order (read from the internal list), index/list consistency and size <= capacity are compared. (a) bounded-exhaustive: all sequences of depth 5 (thorough: 6) over capacities 1-3 with capacity+1 keys "
             "(alphabet 10-20 operations, split over the shards by first operation); (b) rapid: sequences of 20-400 operations at capacities 1-6 and 200-2000 operations at capacities 5-64. "
-            "Pages are a mix of leaf and internal nodes; one random case in a hundred uses capacities 1025-2500 with run-length insertions. The reference model owns its dirty flags (compared with the page's own flag after every step); the LSN of a dirty transition varies, downwards too. Lookups come in bursts of up to 300. Keys are page offsets (uint64); scans over consecutive pages are an operation. Second part: random fetch / dirty / flush on a real file store with a 4-24 page cache; a page handed out must be the object cached for its offset, each page cached once, fetch refused only when the cache is full of dirty pages. Non-trivial: the sequence performed an eviction that had to skip a dirty entry, or an insertion that was refused; distinct by sequence JSON.",
+            "Pages are a mix of leaf and internal nodes; one random case in a hundred uses capacities 1025-2500 with run-length insertions. The reference model owns its dirty flags (compared with the page's own flag after every step); the LSN of a dirty transition varies, downwards too. Lookups come in bursts of up to 300. Keys are page offsets (uint64); scans over consecutive pages are an operation. Second part: random fetch / dirty / flush on a real file store with a 4-24 page cache; a page handed out must be the object cached for its offset, each page cached once, fetch refused only when the cache is full of dirty pages. Non-trivial: the sequence performed an eviction that had to skip a dirty entry, or an insertion that was refused; distinct by sequence JSON. Store part since round 11: flushes against a data file that refuses every write (pages that were dirty must stay dirty) and a closing read-back of every changed page from the file (stamp of its last change).",
     "technique": "model-based property testing (rapid) + bounded-exhaustive enumeration of operation sequences against a reference LRU",
     "level_text": "Exhaustive to depth 5/6 in small scopes, random beyond. Search, not proof.",
     "level_note": "Trusted: the reference model in the test (list with dirty flags). In-package: reads LRUCache.list and .cache directly.",
@@ -263,7 +263,7 @@ PROPS["C13"] = {
     "rule": "rapid-generated schedules: 6-14 statements (CREATE TABLE, INSERT, UPDATE, DELETE, SELECT) run through a Session with the REAL 100 ms flush timer in a binary built with -race; for up to 4 generated statements the verif hook parks the session goroutine for 120-350 ms (1-3 ticks) "
             "at the statement's log write (all its page changes done, log append pending) or, for statements that do not log (CREATE TABLE, SELECT), at a generated page lookup; generated idle gaps of 0-150 ms let ticks land before, inside and after statements. "
             "Oracles: (1) monitor: while a statement is parked no flush, page write or header write may happen on another goroutine; (2) every race-detector report with one side inside engine.EvaluateCreateTable/Insert/Update/Delete/Select and the other inside the flusher is a violation "
-            "(other reports, e.g. USE racing the timer, are counted as out of scope); (3) table contents equal the model afterwards. One schedule in eight is a bulk schedule: 520-1100 rows, then whole-table UPDATE/DELETE/SELECT statements held open at an early page lookup. Half of the SELECTs are chains of one or two joins (several table fetches inside one bracket). One step in ten is a statement on a table that does not exist (sent through the session). One SELECT in six reads the catalog tables. Non-trivial: a DDL/DML statement was parked and the flusher demonstrably waited (it flushed within 60 ms after the park ended); distinct by schedule JSON.",
+            "(other reports, e.g. USE racing the timer, are counted as out of scope); (3) table contents equal the model afterwards. One schedule in eight is a bulk schedule: 520-1100 rows, then whole-table UPDATE/DELETE/SELECT statements held open at an early page lookup. Half of the SELECTs are chains of one or two joins (several table fetches inside one bracket). One step in ten is a statement on a table that does not exist (sent through the session). One SELECT in six reads the catalog tables. Non-trivial: a DDL/DML statement was parked and the flusher demonstrably waited (it flushed within 60 ms after the park ended); distinct by schedule JSON. Since round 11 three schedules in five watch the physical log writes (VerifWrapLog): at every flusher write all bytes appended to the log must have reached the log file; two in five on a store opened without fsync through the Go API.",
     "technique": "schedule-controlled testing: generated delay injection through build-tag hooks + happens-before race detection (-race) as a sanitizer, scoped to the property",
     "level_text": "The weakest check: a few dozen harness-owned schedules; happens-before detection does not depend on the observed timing, parking makes the overlapping accesses actually occur. Interleavings the parked schedules never bring together are missed; failures do not shrink.",
     "level_note": "Wall-clock time decides only WHICH schedules are exercised, never the verdict. Trusted: the hook placement (before log writes, inside flushPages under the lock, in setCache), Go's race detector.",
